@@ -95,7 +95,29 @@ def cell_job(job):
             continue
         pids = None
         expected = {}
-        for ker in kers:
+        # a nuclear target: the parton a coefficient function is assigned to is the PROTON's assignment with u and d mixed in the
+        # ratio Z : A-Z (antiquarks alike), whatever way the card spells the target - taken from the proton twin of the cell, not
+        # from the kernels under test
+        rotated = None
+        if cell.get("target"):
+            try:
+                e0 = rslmod.make_element(dict(c, target=None), xgrid=xg)[1]
+                k0 = cf.Combiner(e0).collect_elems()
+                Z, A = cell["ZA"]
+                if len(k0) == len(kers) and all(type(a.coeff) is type(b.coeff) for a, b in zip(k0, kers)):
+                    rotated = []
+                    for kk in k0:
+                        w = dict(kk.partons)
+                        for u, d in ((2, 1), (-2, -1)):
+                            wu, wd = kk.partons.get(u, 0.0), kk.partons.get(d, 0.0)
+                            w[u], w[d] = (Z * wu + (A - Z) * wd) / A, (Z * wd + (A - Z) * wu) / A
+                        rotated.append(w)
+            except Exception:
+                rotated = None
+            if rotated is None:
+                lines.append(dict(what="cell_error", note=f"{cell['kind']} {cell['proc']} {cell['fns']}: no proton twin for target {cell['target']}"))
+                continue
+        for ik, ker in enumerate(kers):
             co = ker.coeff
             mod = type(co).__module__.split(".")
             key = (cell["kind"], "cc" if cell["proc"] == "CC" else "nc", f"{mod[-2]}/{type(co).__name__}")
@@ -125,14 +147,14 @@ def cell_job(job):
                                   dev_milli=common.milli(dev, 1.0),
                                   note=f"xc={xc:.6g} max|code-oracle|={float(np.max(np.abs(code - ora))):.3e} scale={scale:.3e}"))
                 from eko import basis_rotation as br
-                partons = np.array([ker.partons.get(pid, 0.0) for pid in br.flavor_basis_pids])
+                partons = np.array([(rotated[ik] if rotated is not None else ker.partons).get(pid, 0.0) for pid in br.flavor_basis_pids])
                 expected[o] = expected.get(o, 0) + np.outer(partons, xc * ora)
         # (b) assembly
         try:
             res = e.get_result()
             worst, note = 0.0, ""
             nonfinite = sorted(o for o, ten in expected.items() if not np.all(np.isfinite(res.orders[(o, 0, 0, 0)][0])))
-            lines.append(dict(what="finite", kind=cell["kind"], proc=cell["proc"], fns=cell["fns"], pto=cell["pto"], x=x, ratio=cell.get("ratio", 0),
+            lines.append(dict(what="finite", hist=cell.get("hist", ""), kind=cell["kind"], proc=cell["proc"], fns=cell["fns"], pto=cell["pto"], x=x, ratio=cell.get("ratio", 0),
                               nf=cell["nf"], finite=not nonfinite, note=f"orders with non-finite entries: {nonfinite}"))
             for o, ten in expected.items():
                 if o in nonfinite:
@@ -142,10 +164,10 @@ def cell_job(job):
                 d = float(np.abs(got - ten).max()) / s
                 if not (d <= worst):
                     worst, note = (d if d == d else float("inf")), f"order {o}: max relative difference {d:.3e}"
-            lines.append(dict(what="assembly", kind=cell["kind"], proc=cell["proc"], fns=cell["fns"], pto=cell["pto"], x=x, ratio=cell.get("ratio", 0),
+            lines.append(dict(what="assembly", hist=cell.get("hist", ""), kind=cell["kind"], proc=cell["proc"], fns=cell["fns"], pto=cell["pto"], x=x, ratio=cell.get("ratio", 0),
                               nf=cell["nf"], outcome="OK", dev_milli=common.milli(worst, 2e-4 if cell["pto"] == 3 else 2e-5), note=note))
         except Exception as ex:
-            lines.append(dict(what="assembly", kind=cell["kind"], proc=cell["proc"], fns=cell["fns"], pto=cell["pto"], x=x, ratio=cell.get("ratio", 0),
+            lines.append(dict(what="assembly", hist=cell.get("hist", ""), kind=cell["kind"], proc=cell["proc"], fns=cell["fns"], pto=cell["pto"], x=x, ratio=cell.get("ratio", 0),
                               nf=cell["nf"], outcome="Crash_" + type(ex).__name__, dev_milli=0, note=str(ex)[:150]))
     return lines
 
@@ -169,6 +191,15 @@ def run(ctx):
     evol += [dict(c, ptoEvol=1, hist="evol1") for c in cells if c["fns"] == "FFNS" and c["kind"] == "F2" and c["proc"] == "NC" and c["pto"] >= 2][:1 if q else 3]
     cells = cells + evol
     jobs = [(c, xs) for c in cells]
+    # nuclear targets in every spelling a card may carry (mapping with Z first, with A first - a YAML dump sorts the keys -, floats,
+    # a name): the assignment of coefficient functions to partons is the proton's, rotated
+    def pick(kind, proc, fns):
+        return next(c for c in cells if c["kind"] == kind and c["proc"] == proc and c["fns"] == fns and c.get("hist", "") == "")
+    tcells = [dict(pick("F2", "NC", "ZM-VFNS"), target={"A": 208, "Z": 82}, ZA=[82, 208], hist="tgtAZ"),
+              dict(pick("F3", "CC", "FFNS"), target={"A": 56.0, "Z": 26.0}, ZA=[26, 56], hist="tgtAZf"),
+              dict(pick("F2", "NC", "FFN0"), target={"Z": 82, "A": 208}, ZA=[82, 208], hist="tgtZA"),
+              dict(pick("FL", "NC", "ZM-VFNS"), target="lead", ZA=[82, 208], hist="tgtname")]
+    jobs += [(dict(c, pto=min(c["pto"], 1), ptoEvol=min(c["ptoEvol"], 1)), xs[:1]) for c in (tcells if not q else tcells[:3])]
     # very small x, a hair above the first nodes of a grid reaching 1e-7 (an absolute tolerance of 1e-8 is 10 % of x there)
     xg7 = cards.make_grid(4, 4, x_min=1e-7)
     tiny = [dict(c, pto=min(c["pto"], 2), ptoEvol=min(c["ptoEvol"], 2), xmin=1e-7, hist="tinyx") for c in cells
